@@ -8,6 +8,8 @@ import PMV.Model.Minify
 namespace PMV.PyCore
 open PMV PMV.Transforms
 
+variable {o : Bool}
+
 /-- what the transformer does to a function body stored in the table -/
 def bodyT (t : SuiteT) (b : List Stmt) : List Stmt := t.funcBodyF (t.suiteF false (travBody t b))
 
@@ -17,10 +19,10 @@ def mapT (t : SuiteT) : FTab → FTab
   | (n, ps, b) :: rest => (n, ps, bodyT t b) :: mapT t rest
 
 /-- the pieces of a transformer are semantically neutral -/
-structure Sound (t : SuiteT) : Prop where
-  suite : ∀ ft fuel s m b, execL ft fuel s (t.suiteF m b) = execL ft fuel s b
-  stmt : ∀ ft fuel s st, exec1 ft fuel s (t.stmtF st) = exec1 ft fuel s st
-  body : ∀ ft fuel s b, asCall (execL ft fuel s (t.funcBodyF b)) = asCall (execL ft fuel s b)
+structure Sound (o : Bool) (t : SuiteT) : Prop where
+  suite : ∀ ft fuel s m b, execL ⟨ft, o⟩ fuel s (t.suiteF m b) = execL ⟨ft, o⟩ fuel s b
+  stmt : ∀ ft fuel s st, exec1 ⟨ft, o⟩ fuel s (t.stmtF st) = exec1 ⟨ft, o⟩ fuel s st
+  body : ∀ ft fuel s b, asCall (execL ⟨ft, o⟩ fuel s (t.funcBodyF b)) = asCall (execL ⟨ft, o⟩ fuel s b)
   globals : ∀ b, declaredGlobals (bodyT t b) = declaredGlobals b
 
 theorem lookup_mapT (t : SuiteT) (f : String) : ∀ ft : FTab,
@@ -30,21 +32,22 @@ theorem lookup_mapT (t : SuiteT) (f : String) : ∀ ft : FTab,
     simp only [mapT, List.lookup]
     cases f == n <;> simp [lookup_mapT t f rest]
 
-theorem execL_nil (ft : FTab) (fuel : Nat) (s : St) : execL ft fuel s [] = .ok (.normal s) := by
+theorem execL_nil (ft : FTab) (fuel : Nat) (s : St) : execL ⟨ft, o⟩ fuel s [] = .ok (.normal s) := by
   rw [execL]
 
 theorem execL_cons (ft : FTab) (fuel : Nat) (s : St) (st : Stmt) (rest : List Stmt) :
-    execL ft fuel s (st :: rest) =
-      (match exec1 ft fuel s st with
-       | .ok (.normal s') => execL ft fuel s' rest
+    execL ⟨ft, o⟩ fuel s (st :: rest) =
+      (match exec1 ⟨ft, o⟩ fuel s st with
+       | .ok (.normal s') => execL ⟨ft, o⟩ fuel s' rest
        | r => r) := by
   rw [execL]; rfl
 
 /-- a statement that is neither `if` nor `while`: a call of a table function or a simple statement -/
-def flatExec (ft : FTab) (fuel : Nat) (s : St) (st : Stmt) : Res Flow :=
-  match callOf st with
-  | some (f, args, target) => callFn ft fuel s f args target
-  | none => simpleExec s st
+def flatExec (env : RunEnv) (fuel : Nat) (s : St) (st : Stmt) : Res Flow :=
+  if env.opt && isAssertStmt st then .ok (.normal s)
+  else match callOf st with
+    | some (f, args, target) => callFn env fuel s f args target
+    | none => simpleExec s st
 
 def isBlockStmt : Stmt → Bool
   | .if_ .. => true
@@ -53,8 +56,13 @@ def isBlockStmt : Stmt → Bool
   | .for_ false .. => true
   | _ => false
 
+theorem flat_simple (env : RunEnv) (fuel : Nat) (s : St) (st : Stmt) (ha : isAssertStmt st = false) (hc : callOf st = none) :
+    flatExec env fuel s st = simpleExec s st := by
+  unfold flatExec
+  simp [ha, hc]
+
 theorem exec1_flat (ft : FTab) (fuel : Nat) (s : St) (st : Stmt) (h : isBlockStmt st = false) :
-    exec1 ft fuel s st = flatExec ft fuel s st := by
+    exec1 ⟨ft, o⟩ fuel s st = flatExec ⟨ft, o⟩ fuel s st := by
   cases st
   case try_ star _ _ _ _ =>
     cases star
@@ -72,13 +80,13 @@ namespace PMV.PyCore
 open PMV PMV.Transforms
 
 /-- the claim at one fuel level -/
-def Good (t : SuiteT) (ft : FTab) (n : Nat) : Prop :=
-  (∀ s st, exec1 (mapT t ft) n s (travStmt t st) = exec1 ft n s st) ∧
-  (∀ s l, execL (mapT t ft) n s (travBody t l) = execL ft n s l)
+def Good (o : Bool) (t : SuiteT) (ft : FTab) (n : Nat) : Prop :=
+  (∀ s st, exec1 ⟨mapT t ft, o⟩ n s (travStmt t st) = exec1 ⟨ft, o⟩ n s st) ∧
+  (∀ s l, execL ⟨mapT t ft, o⟩ n s (travBody t l) = execL ⟨ft, o⟩ n s l)
 
-theorem callFn_ok (t : SuiteT) (h : Sound t) (ft : FTab) (n : Nat) (ih : ∀ m, m < n → Good t ft m)
+theorem callFn_ok (t : SuiteT) (h : Sound o t) (ft : FTab) (n : Nat) (ih : ∀ m, m < n → Good o t ft m)
     (s : St) (f : String) (args : List Expr) (tgt : Option String) :
-    callFn (mapT t ft) n s f args tgt = callFn ft n s f args tgt := by
+    callFn ⟨mapT t ft, o⟩ n s f args tgt = callFn ⟨ft, o⟩ n s f args tgt := by
   rw [callFn, callFn]
   cases evalArgs s args with
   | none => rfl
@@ -96,34 +104,38 @@ theorem callFn_ok (t : SuiteT) (h : Sound t) (ft : FTab) (n : Nat) (ih : ∀ m, 
         | zero => rfl
         | succ k =>
           simp only [h.globals]
-          have hb : ∀ inner, asCall (execL (mapT t ft) k inner (bodyT t b)) = asCall (execL ft k inner b) := by
+          have hb : ∀ inner, asCall (execL ⟨mapT t ft, o⟩ k inner (bodyT t b)) = asCall (execL ⟨ft, o⟩ k inner b) := by
             intro inner
             unfold bodyT
             rw [h.body, h.suite, (ih k (Nat.lt_succ_self k)).2]
           simp only [hb]
 
-theorem flat_same (t : SuiteT) (h : Sound t) (ft : FTab) (n : Nat) (ih : ∀ m, m < n → Good t ft m)
+theorem flat_same (t : SuiteT) (h : Sound o t) (ft : FTab) (n : Nat) (ih : ∀ m, m < n → Good o t ft m)
     (s : St) (st : Stmt) (hst : isBlockStmt st = false) :
-    exec1 (mapT t ft) n s st = exec1 ft n s st := by
+    exec1 ⟨mapT t ft, o⟩ n s st = exec1 ⟨ft, o⟩ n s st := by
   rw [exec1_flat _ _ _ _ hst, exec1_flat _ _ _ _ hst]
   unfold flatExec
-  cases callOf st with
-  | none => rfl
-  | some r => obtain ⟨f, args, tgt⟩ := r; exact callFn_ok t h ft n ih s f args tgt
+  simp only
+  by_cases ha : (o && isAssertStmt st) = true
+  · simp only [ha, if_true]
+  · simp only [ha, Bool.false_eq_true, if_false]
+    cases callOf st with
+    | none => rfl
+    | some r => obtain ⟨f, args, tgt⟩ := r; exact callFn_ok t h ft n ih s f args tgt
 
-theorem orelse_ok (t : SuiteT) (h : Sound t) (ft : FTab) (n : Nat) (s : St) (o : List Stmt)
-    (ho : execL (mapT t ft) n s (travBody t o) = execL ft n s o) :
-    execL (mapT t ft) n s (if o.isEmpty then [] else t.suiteF false (travBody t o)) = execL ft n s o := by
-  cases o with
+theorem orelse_ok (t : SuiteT) (h : Sound o t) (ft : FTab) (n : Nat) (s : St) (os : List Stmt)
+    (ho : execL ⟨mapT t ft, o⟩ n s (travBody t os) = execL ⟨ft, o⟩ n s os) :
+    execL ⟨mapT t ft, o⟩ n s (if os.isEmpty then [] else t.suiteF false (travBody t os)) = execL ⟨ft, o⟩ n s os := by
+  cases os with
   | nil => simp [execL_nil]
   | cons x xs => simp only [List.isEmpty_cons, Bool.false_eq_true, if_false]; rw [h.suite, ho]
 
 /-- `for` loops agree when body and `else` agree at every fuel up to the current one -/
 theorem execFor_congr (ft ft' : FTab) (body body' orelse orelse' : List Stmt) (N : Nat)
-    (hb : ∀ f, f ≤ N → ∀ s, execL ft' f s body' = execL ft f s body)
-    (ho : ∀ f, f ≤ N → ∀ s, execL ft' f s orelse' = execL ft f s orelse) :
+    (hb : ∀ f, f ≤ N → ∀ s, execL ⟨ft', o⟩ f s body' = execL ⟨ft, o⟩ f s body)
+    (ho : ∀ f, f ≤ N → ∀ s, execL ⟨ft', o⟩ f s orelse' = execL ⟨ft, o⟩ f s orelse) :
     ∀ f, f ≤ N → ∀ (s : St) (x : String) (i k : Int),
-      execFor ft' f s x i k body' orelse' = execFor ft f s x i k body orelse := by
+      execFor ⟨ft', o⟩ f s x i k body' orelse' = execFor ⟨ft, o⟩ f s x i k body orelse := by
   intro f
   induction f with
   | zero =>
@@ -132,13 +144,13 @@ theorem execFor_congr (ft ft' : FTab) (body body' orelse orelse' : List Stmt) (N
   | succ f ihf =>
     intro hf s x i k
     rw [execFor.eq_2, execFor.eq_2, hb (f + 1) hf, ho (f + 1) hf]
-    have hrec : ∀ s', execFor ft' f s' x (i + 1) k body' orelse' = execFor ft f s' x (i + 1) k body orelse :=
+    have hrec : ∀ s', execFor ⟨ft', o⟩ f s' x (i + 1) k body' orelse' = execFor ⟨ft, o⟩ f s' x (i + 1) k body orelse :=
       fun s' => ihf (Nat.le_of_succ_le hf) s' x (i + 1) k
     simp only [hrec]
 
 mutual
-theorem exec1_ok (t : SuiteT) (h : Sound t) (ft : FTab) (n : Nat) (ih : ∀ m, m < n → Good t ft m) :
-    (st : Stmt) → (s : St) → exec1 (mapT t ft) n s (travStmt t st) = exec1 ft n s st
+theorem exec1_ok (t : SuiteT) (h : Sound o t) (ft : FTab) (n : Nat) (ih : ∀ m, m < n → Good o t ft m) :
+    (st : Stmt) → (s : St) → exec1 ⟨mapT t ft, o⟩ n s (travStmt t st) = exec1 ⟨ft, o⟩ n s st
   | .if_ c body orelse, s => by
     simp only [travStmt]
     rw [exec1.eq_1, exec1.eq_1, h.suite, execL_ok t h ft n ih body s,
@@ -151,9 +163,9 @@ theorem exec1_ok (t : SuiteT) (h : Sound t) (ft : FTab) (n : Nat) (ih : ∀ m, m
     | succ k =>
       rw [exec1.eq_3, exec1.eq_3, h.suite, execL_ok t h ft (k + 1) ih body s,
         orelse_ok t h ft (k + 1) s orelse (execL_ok t h ft (k + 1) ih orelse s)]
-      have hw : ∀ s', exec1 (mapT t ft) k s'
+      have hw : ∀ s', exec1 ⟨mapT t ft, o⟩ k s'
           (.while_ c (t.suiteF false (travBody t body)) (if orelse.isEmpty then [] else t.suiteF false (travBody t orelse)))
-          = exec1 ft k s' (.while_ c body orelse) := by
+          = exec1 ⟨ft, o⟩ k s' (.while_ c body orelse) := by
         intro s'
         have := (ih k (Nat.lt_succ_self k)).1 s' (.while_ c body orelse)
         simpa only [travStmt] using this
@@ -161,59 +173,59 @@ theorem exec1_ok (t : SuiteT) (h : Sound t) (ft : FTab) (n : Nat) (ih : ∀ m, m
   | .functionDef a nm args body decs ret tps, s => by
     simp only [travStmt]
     rw [h.stmt, exec1_flat _ _ _ _ rfl, exec1_flat _ _ _ _ rfl]
-    simp [flatExec, callOf, simpleExec]
+    simp [flatExec, isAssertStmt, callOf, simpleExec]
   | .classDef nm bases kws body decs tps, s => by
     simp only [travStmt]
     rw [h.stmt, exec1_flat _ _ _ _ rfl, exec1_flat _ _ _ _ rfl]
-    simp [flatExec, callOf, simpleExec]
+    simp [flatExec, isAssertStmt, callOf, simpleExec]
   | .for_ true .., s => by
     simp only [travStmt]
     rw [exec1_flat _ _ _ _ rfl, exec1_flat _ _ _ _ rfl]
-    simp [flatExec, callOf, simpleExec]
+    simp [flatExec, isAssertStmt, callOf, simpleExec]
   | .for_ false tg it body orelse, s => by
     simp only [travStmt]
     rw [exec1.eq_4, exec1.eq_4]
-    have hb : ∀ f, f ≤ n → ∀ s, execL (mapT t ft) f s (t.suiteF false (travBody t body)) = execL ft f s body := by
+    have hb : ∀ f, f ≤ n → ∀ s, execL ⟨mapT t ft, o⟩ f s (t.suiteF false (travBody t body)) = execL ⟨ft, o⟩ f s body := by
       intro f hf s
       rw [h.suite]
       rcases Nat.lt_or_eq_of_le hf with hlt | heq
       · exact (ih f hlt).2 s body
       · subst heq; exact execL_ok t h ft f ih body s
-    have ho : ∀ f, f ≤ n → ∀ s, execL (mapT t ft) f s (if orelse.isEmpty then [] else t.suiteF false (travBody t orelse)) = execL ft f s orelse := by
+    have ho : ∀ f, f ≤ n → ∀ s, execL ⟨mapT t ft, o⟩ f s (if orelse.isEmpty then [] else t.suiteF false (travBody t orelse)) = execL ⟨ft, o⟩ f s orelse := by
       intro f hf s
       apply orelse_ok t h ft f s orelse
       rcases Nat.lt_or_eq_of_le hf with hlt | heq
       · exact (ih f hlt).2 s orelse
       · subst heq; exact execL_ok t h ft f ih orelse s
     have hfor : ∀ (s : St) (x : String) (k : Int),
-        execFor (mapT t ft) n s x 0 k (t.suiteF false (travBody t body)) (if orelse.isEmpty then [] else t.suiteF false (travBody t orelse))
-          = execFor ft n s x 0 k body orelse :=
+        execFor ⟨mapT t ft, o⟩ n s x 0 k (t.suiteF false (travBody t body)) (if orelse.isEmpty then [] else t.suiteF false (travBody t orelse))
+          = execFor ⟨ft, o⟩ n s x 0 k body orelse :=
       fun s x k => execFor_congr ft (mapT t ft) body _ orelse _ n hb ho n (Nat.le_refl n) s x 0 k
     simp only [hfor]
   | .with_ .., s => by
     simp only [travStmt]
     rw [exec1_flat _ _ _ _ rfl, exec1_flat _ _ _ _ rfl]
-    simp [flatExec, callOf, simpleExec]
+    simp [flatExec, isAssertStmt, callOf, simpleExec]
   | .try_ true .., s => by
     simp only [travStmt]
     rw [exec1_flat _ _ _ _ rfl, exec1_flat _ _ _ _ rfl]
-    simp [flatExec, callOf, simpleExec]
+    simp [flatExec, isAssertStmt, callOf, simpleExec]
   | .try_ false body hs orelse fin, s => by
     simp only [travStmt]
     rw [exec1.eq_5, exec1.eq_5, h.suite, execL_ok t h ft n ih body s]
-    have he : (fun s1 => execL (mapT t ft) n s1 (if orelse.isEmpty then [] else t.suiteF false (travBody t orelse)))
-        = (fun s1 => execL ft n s1 orelse) := by
+    have he : (fun s1 => execL ⟨mapT t ft, o⟩ n s1 (if orelse.isEmpty then [] else t.suiteF false (travBody t orelse)))
+        = (fun s1 => execL ⟨ft, o⟩ n s1 orelse) := by
       funext s1; exact orelse_ok t h ft n s1 orelse (execL_ok t h ft n ih orelse s1)
-    have hf : (fun s1 => execL (mapT t ft) n s1 (if fin.isEmpty then [] else t.suiteF false (travBody t fin)))
-        = (fun s1 => execL ft n s1 fin) := by
+    have hf : (fun s1 => execL ⟨mapT t ft, o⟩ n s1 (if fin.isEmpty then [] else t.suiteF false (travBody t fin)))
+        = (fun s1 => execL ⟨ft, o⟩ n s1 fin) := by
       funext s1; exact orelse_ok t h ft n s1 fin (execL_ok t h ft n ih fin s1)
-    have hh : (fun x s1 => execH (mapT t ft) n s1 x (travHandlers t hs)) = (fun x s1 => execH ft n s1 x hs) := by
+    have hh : (fun x s1 => execH ⟨mapT t ft, o⟩ n s1 x (travHandlers t hs)) = (fun x s1 => execH ⟨ft, o⟩ n s1 x hs) := by
       funext x s1; exact execH_ok t h ft n ih hs s1 x
     rw [he, hf, hh]
   | .match_ .., s => by
     simp only [travStmt]
     rw [exec1_flat _ _ _ _ rfl, exec1_flat _ _ _ _ rfl]
-    simp [flatExec, callOf, simpleExec]
+    simp [flatExec, isAssertStmt, callOf, simpleExec]
   | .return_ v, s => by simp only [travStmt]; rw [h.stmt]; exact flat_same t h ft n ih s _ rfl
   | .delete v, s => by simp only [travStmt]; rw [h.stmt]; exact flat_same t h ft n ih s _ rfl
   | .assign .., s => by simp only [travStmt]; rw [h.stmt]; exact flat_same t h ft n ih s _ rfl
@@ -230,23 +242,23 @@ theorem exec1_ok (t : SuiteT) (h : Sound t) (ft : FTab) (n : Nat) (ih : ∀ m, m
   | .pass, s => by simp only [travStmt]; rw [h.stmt]; exact flat_same t h ft n ih s _ rfl
   | .break_, s => by simp only [travStmt]; rw [h.stmt]; exact flat_same t h ft n ih s _ rfl
   | .continue_, s => by simp only [travStmt]; rw [h.stmt]; exact flat_same t h ft n ih s _ rfl
-theorem execH_ok (t : SuiteT) (h : Sound t) (ft : FTab) (n : Nat) (ih : ∀ m, m < n → Good t ft m) :
-    (hs : List Handler) → (s : St) → (x : String) → execH (mapT t ft) n s x (travHandlers t hs) = execH ft n s x hs
+theorem execH_ok (t : SuiteT) (h : Sound o t) (ft : FTab) (n : Nat) (ih : ∀ m, m < n → Good o t ft m) :
+    (hs : List Handler) → (s : St) → (x : String) → execH ⟨mapT t ft, o⟩ n s x (travHandlers t hs) = execH ⟨ft, o⟩ n s x hs
   | [], s, x => by simp only [travHandlers]; rw [execH.eq_1, execH.eq_1]
   | .mk ty nm hbody :: rest, s, x => by
     simp only [travHandlers]
     rw [execH.eq_2, execH.eq_2, execL_ok t h ft n ih hbody s, execH_ok t h ft n ih rest s x]
-theorem execL_ok (t : SuiteT) (h : Sound t) (ft : FTab) (n : Nat) (ih : ∀ m, m < n → Good t ft m) :
-    (l : List Stmt) → (s : St) → execL (mapT t ft) n s (travBody t l) = execL ft n s l
+theorem execL_ok (t : SuiteT) (h : Sound o t) (ft : FTab) (n : Nat) (ih : ∀ m, m < n → Good o t ft m) :
+    (l : List Stmt) → (s : St) → execL ⟨mapT t ft, o⟩ n s (travBody t l) = execL ⟨ft, o⟩ n s l
   | [], s => by simp [travBody, execL_nil]
   | st :: rest, s => by
     simp only [travBody]
     rw [execL_cons, execL_cons, exec1_ok t h ft n ih st s]
-    have hr : ∀ s', execL (mapT t ft) n s' (travBody t rest) = execL ft n s' rest := execL_ok t h ft n ih rest
+    have hr : ∀ s', execL ⟨mapT t ft, o⟩ n s' (travBody t rest) = execL ⟨ft, o⟩ n s' rest := execL_ok t h ft n ih rest
     simp only [hr]
 end
 
-theorem good_all (t : SuiteT) (h : Sound t) (ft : FTab) (n : Nat) : Good t ft n := by
+theorem good_all (t : SuiteT) (h : Sound o t) (ft : FTab) (n : Nat) : Good o t ft n := by
   induction n using Nat.strongRecOn with
   | _ n ih => exact ⟨fun s st => exec1_ok t h ft n ih st s, fun s l => execL_ok t h ft n ih l s⟩
 
@@ -281,24 +293,31 @@ theorem collect_trav (t : SuiteT) (ht : TableSound t) : ∀ l, collect (travBody
 
 /-- Whole-module preservation for a sound transformer: same printed lines, same ending, same globals,
     for every fuel (so also the same divergence behaviour up to any bound). -/
-theorem run_trav (t : SuiteT) (h : Sound t) (ht : TableSound t) (n : Nat) (m : Module) :
+theorem run_trav (t : SuiteT) (h : Sound false t) (ht : TableSound t) (n : Nat) (m : Module) :
     run n (travModule t m) = run n m := by
   unfold run travModule
   simp only
   rw [ht.suiteDef, collect_trav t ht, h.suite, (good_all t h (collect m.body) n).2]
 
+/-- the same under `python -O` -/
+theorem runO_trav (t : SuiteT) (h : Sound true t) (ht : TableSound t) (n : Nat) (m : Module) :
+    runO n (travModule t m) = runO n m := by
+  unfold runO travModule
+  simp only
+  rw [ht.suiteDef, collect_trav t ht, h.suite, (good_all t h (collect m.body) n).2]
+
 /-! ### instances: dropping statements that do nothing -/
 
-structure NoOpPred (q : Stmt → Bool) : Prop where
-  exec : ∀ ft fuel s st, q st = true → exec1 ft fuel s st = .ok (.normal s)
+structure NoOpPred (o : Bool) (q : Stmt → Bool) : Prop where
+  exec : ∀ ft fuel s st, q st = true → exec1 ⟨ft, o⟩ fuel s st = .ok (.normal s)
   notDef : ∀ st, q st = true → defOf st = none
   notGlobal : ∀ st, q st = true → globalsOf st = []
 
-theorem exec_zero (ft : FTab) (fuel : Nat) (s : St) : exec1 ft fuel s zeroStmt = .ok (.normal s) := by
-  rw [exec1_flat _ _ _ _ rfl]; rfl
+theorem exec_zero (ft : FTab) (fuel : Nat) (s : St) : exec1 ⟨ft, o⟩ fuel s zeroStmt = .ok (.normal s) := by
+  rw [exec1_flat _ _ _ _ rfl, flat_simple _ _ _ _ rfl rfl]; rfl
 
-theorem execL_filter (q : Stmt → Bool) (hq : NoOpPred q) (ft : FTab) (fuel : Nat) :
-    ∀ (b : List Stmt) (s : St), execL ft fuel s (b.filter (fun st => !q st)) = execL ft fuel s b
+theorem execL_filter (q : Stmt → Bool) (hq : NoOpPred o q) (ft : FTab) (fuel : Nat) :
+    ∀ (b : List Stmt) (s : St), execL ⟨ft, o⟩ fuel s (b.filter (fun st => !q st)) = execL ⟨ft, o⟩ fuel s b
   | [], _ => rfl
   | st :: rest, s => by
     cases hst : q st with
@@ -309,23 +328,23 @@ theorem execL_filter (q : Stmt → Bool) (hq : NoOpPred q) (ft : FTab) (fuel : N
     | false =>
       simp only [List.filter, hst, Bool.not_false]
       rw [execL_cons, execL_cons]
-      have hr : ∀ s', execL ft fuel s' (rest.filter (fun st => !q st)) = execL ft fuel s' rest := execL_filter q hq ft fuel rest
+      have hr : ∀ s', execL ⟨ft, o⟩ fuel s' (rest.filter (fun st => !q st)) = execL ⟨ft, o⟩ fuel s' rest := execL_filter q hq ft fuel rest
       simp only [hr]
 
-theorem execL_filterSuite (q : Stmt → Bool) (hq : NoOpPred q) (ft : FTab) (fuel : Nat) (s : St) (m : Bool) (b : List Stmt) :
-    execL ft fuel s (filterSuite q m b) = execL ft fuel s b := by
+theorem execL_filterSuite (q : Stmt → Bool) (hq : NoOpPred o q) (ft : FTab) (fuel : Nat) (s : St) (m : Bool) (b : List Stmt) :
+    execL ⟨ft, o⟩ fuel s (filterSuite q m b) = execL ⟨ft, o⟩ fuel s b := by
   rcases filterSuite_cases q m b with h | ⟨he, _, hz⟩
   · rw [h, execL_filter q hq]
   · rw [hz, ← execL_filter q hq ft fuel b s, he, execL_cons, exec_zero]
 
-theorem collect_filter (q : Stmt → Bool) (hq : NoOpPred q) : ∀ b : List Stmt, collect (b.filter (fun st => !q st)) = collect b
+theorem collect_filter (q : Stmt → Bool) (hq : NoOpPred o q) : ∀ b : List Stmt, collect (b.filter (fun st => !q st)) = collect b
   | [] => rfl
   | st :: rest => by
     cases hst : q st with
     | true => simp [List.filter, hst, collect, hq.notDef st hst, collect_filter q hq rest]
     | false => simp [List.filter, hst, collect, collect_filter q hq rest]
 
-theorem globals_filter (q : Stmt → Bool) (hq : NoOpPred q) : ∀ b : List Stmt,
+theorem globals_filter (q : Stmt → Bool) (hq : NoOpPred o q) : ∀ b : List Stmt,
     declaredGlobals (b.filter (fun st => !q st)) = declaredGlobals b
   | [] => rfl
   | st :: rest => by
@@ -344,7 +363,7 @@ theorem globals_trav (t : SuiteT) (hs : ∀ st, globalsOf (t.stmtF st) = globals
   | [] => rfl
   | st :: rest => by simp [travBody, declaredGlobals, globalsOf_trav t hs st, globals_trav t hs rest]
 
-theorem dropT_sound (q : Stmt → Bool) (hq : NoOpPred q) : Sound (dropT q) where
+theorem dropT_sound (q : Stmt → Bool) (hq : NoOpPred o q) : Sound o (dropT q) where
   suite := fun ft fuel s m b => execL_filterSuite q hq ft fuel s m b
   stmt := fun _ _ _ _ => rfl
   body := fun _ _ _ _ => rfl
@@ -357,7 +376,7 @@ theorem dropT_sound (q : Stmt → Bool) (hq : NoOpPred q) : Sound (dropT q) wher
     · rw [hz, ← globals_trav (dropT q) (fun _ => rfl) b, ← globals_filter q hq (travBody (dropT q) b), he]
       rfl
 
-theorem dropT_table (q : Stmt → Bool) (hq : NoOpPred q) : TableSound (dropT q) where
+theorem dropT_table (q : Stmt → Bool) (hq : NoOpPred o q) : TableSound (dropT q) where
   stmtDef := fun _ => rfl
   suiteDef := by
     intro b
@@ -366,11 +385,11 @@ theorem dropT_table (q : Stmt → Bool) (hq : NoOpPred q) : TableSound (dropT q)
     · rw [h, collect_filter q hq]
     · cases hm
 
-theorem isPass_noop : NoOpPred isPass where
+theorem isPass_noop : NoOpPred o isPass where
   exec := by
     intro ft fuel s st h
     cases st <;> simp [isPass] at h
-    rw [exec1_flat _ _ _ _ rfl]; rfl
+    rw [exec1_flat _ _ _ _ rfl, flat_simple _ _ _ _ rfl rfl]; rfl
   notDef := by intro st h; cases st <;> simp [isPass] at h; rfl
   notGlobal := by intro st h; cases st <;> simp [isPass] at h; rfl
 
@@ -379,13 +398,13 @@ end PMV.PyCore
 namespace PMV.PyCore
 open PMV PMV.Transforms
 
-theorem isLiteral_noop : NoOpPred isLiteralStmt where
+theorem isLiteral_noop : NoOpPred o isLiteralStmt where
   exec := by
     intro ft fuel s st h
     cases st with
     | expr e =>
       cases e with
-      | constant c => rw [exec1_flat _ _ _ _ rfl]; rfl
+      | constant c => rw [exec1_flat _ _ _ _ rfl, flat_simple _ _ _ _ rfl rfl]; rfl
       | _ => simp [isLiteralStmt] at h
     | _ => simp [isLiteralStmt] at h
   notDef := by
@@ -402,21 +421,21 @@ theorem isLiteral_noop : NoOpPred isLiteralStmt where
 /-! ### `return None` → `return`, and dropping a trailing `return` -/
 
 theorem exec_returnNoneStmt (ft : FTab) (fuel : Nat) (s : St) (st : Stmt) :
-    exec1 ft fuel s (returnNoneStmt st) = exec1 ft fuel s st := by
+    exec1 ⟨ft, o⟩ fuel s (returnNoneStmt st) = exec1 ⟨ft, o⟩ fuel s st := by
   unfold returnNoneStmt
   split
-  · rw [exec1_flat _ _ _ _ rfl, exec1_flat _ _ _ _ rfl]; rfl
+  · rw [exec1_flat _ _ _ _ rfl, exec1_flat _ _ _ _ rfl, flat_simple _ _ _ _ rfl rfl, flat_simple _ _ _ _ rfl rfl]; rfl
   · rfl
 
 theorem asCall_append_return (ft : FTab) (fuel : Nat) : ∀ (l : List Stmt) (s : St),
-    asCall (execL ft fuel s (l ++ [.return_ none])) = asCall (execL ft fuel s l)
+    asCall (execL ⟨ft, o⟩ fuel s (l ++ [.return_ none])) = asCall (execL ⟨ft, o⟩ fuel s l)
   | [], s => by
     simp only [List.nil_append]
-    rw [execL_cons, exec1_flat _ _ _ _ rfl, execL_nil]; rfl
+    rw [execL_cons, exec1_flat _ _ _ _ rfl, flat_simple _ _ _ _ rfl rfl, execL_nil]; rfl
   | st :: rest, s => by
     simp only [List.cons_append]
     rw [execL_cons, execL_cons]
-    cases exec1 ft fuel s st with
+    cases exec1 ⟨ft, o⟩ fuel s st with
     | ok fl =>
       cases fl with
       | normal s' => exact asCall_append_return ft fuel rest s'
@@ -428,9 +447,9 @@ theorem eq_dropLast_append {α : Type} (l : List α) (x : α) (h : l.getLast? = 
   simp
 
 theorem asCall_dropTrailingReturn (ft : FTab) (fuel : Nat) (s : St) (b : List Stmt) :
-    asCall (execL ft fuel s (dropTrailingReturn b)) = asCall (execL ft fuel s b) := by
-  have key : ∀ b' : List Stmt, asCall (execL ft fuel s b') = asCall (execL ft fuel s b) →
-      asCall (execL ft fuel s (if b'.isEmpty then [zeroStmt] else b')) = asCall (execL ft fuel s b) := by
+    asCall (execL ⟨ft, o⟩ fuel s (dropTrailingReturn b)) = asCall (execL ⟨ft, o⟩ fuel s b) := by
+  have key : ∀ b' : List Stmt, asCall (execL ⟨ft, o⟩ fuel s b') = asCall (execL ⟨ft, o⟩ fuel s b) →
+      asCall (execL ⟨ft, o⟩ fuel s (if b'.isEmpty then [zeroStmt] else b')) = asCall (execL ⟨ft, o⟩ fuel s b) := by
     intro b' hb'
     cases b' with
     | nil =>
@@ -474,7 +493,7 @@ theorem globalsOf_returnNoneStmt (st : Stmt) : globalsOf (returnNoneStmt st) = g
 theorem defOf_returnNoneStmt (st : Stmt) : defOf (returnNoneStmt st) = defOf st := by
   unfold returnNoneStmt; split <;> rfl
 
-theorem returnNone_sound : Sound removeReturnNone where
+theorem returnNone_sound : Sound o removeReturnNone where
   suite := fun _ _ _ _ _ => rfl
   stmt := fun ft fuel s st => exec_returnNoneStmt ft fuel s st
   body := fun ft fuel s b => asCall_dropTrailingReturn ft fuel s b
@@ -513,15 +532,16 @@ theorem raiseName_stripCall (el : List String) (e c : Option Expr) :
     · rfl
 
 theorem exec_bracketsStmt (el : List String) (ft : FTab) (fuel : Nat) (s : St) (st : Stmt) :
-    exec1 ft fuel s (bracketsStmt el st) = exec1 ft fuel s st := by
+    exec1 ⟨ft, o⟩ fuel s (bracketsStmt el st) = exec1 ⟨ft, o⟩ fuel s st := by
   cases st
   case raise_ e c =>
     simp only [bracketsStmt]
     rw [exec1_flat _ _ _ _ rfl, exec1_flat _ _ _ _ rfl]
-    simp only [flatExec, callOf, simpleExec, raiseName_stripCall]
+    rw [flat_simple _ _ _ _ rfl rfl, flat_simple _ _ _ _ rfl rfl]
+    simp only [simpleExec, raiseName_stripCall]
   all_goals rfl
 
-theorem brackets_sound (el : List String) : Sound (removeBrackets el) where
+theorem brackets_sound (el : List String) : Sound o (removeBrackets el) where
   suite := fun _ _ _ _ _ => rfl
   stmt := fun ft fuel s st => exec_bracketsStmt el ft fuel s st
   body := fun _ _ _ _ => rfl
@@ -543,14 +563,14 @@ namespace PMV.PyCore
 open PMV PMV.Transforms PMV.Minify
 
 theorem exec_removeObjectStmt (ft : FTab) (fuel : Nat) (s : St) (st : Stmt) :
-    exec1 ft fuel s (removeObjectStmt st) = exec1 ft fuel s st := by
+    exec1 ⟨ft, o⟩ fuel s (removeObjectStmt st) = exec1 ⟨ft, o⟩ fuel s st := by
   cases st
   case classDef =>
     simp only [removeObjectStmt]
-    rw [exec1_flat _ _ _ _ rfl, exec1_flat _ _ _ _ rfl]; rfl
+    rw [exec1_flat _ _ _ _ rfl, exec1_flat _ _ _ _ rfl, flat_simple _ _ _ _ rfl rfl, flat_simple _ _ _ _ rfl rfl]; rfl
   all_goals rfl
 
-theorem object_sound : Sound removeObject where
+theorem object_sound : Sound o removeObject where
   suite := fun _ _ _ _ _ => rfl
   stmt := exec_removeObjectStmt
   body := fun _ _ _ _ => rfl
@@ -565,5 +585,54 @@ theorem object_sound : Sound removeObject where
 theorem object_table : TableSound removeObject where
   stmtDef := by intro st; cases st <;> rfl
   suiteDef := fun _ => rfl
+
+end PMV.PyCore
+
+/-! ### under `python -O`: asserts and `if __debug__:` blocks do nothing -/
+namespace PMV.PyCore
+open PMV PMV.Transforms
+
+theorem isAssert_noop : NoOpPred true isAssert where
+  exec := by
+    intro ft fuel s st h
+    cases st <;> simp [isAssert] at h
+    rw [exec1_flat _ _ _ _ rfl]
+    simp [flatExec, isAssertStmt]
+  notDef := by intro st h; cases st <;> simp [isAssert] at h; rfl
+  notGlobal := by intro st h; cases st <;> simp [isAssert] at h; rfl
+
+theorem isDebugName_eq (e : Expr) (h : isDebugName e = true) : ∃ c, e = .name "__debug__" c := by
+  unfold isDebugName at h
+  split at h
+  · exact ⟨_, rfl⟩
+  · simp at h
+
+theorem debugTest_of_canRemove (test : Expr) (body orelse : List Stmt) (h : canRemoveDebug (.if_ test body orelse) = true) :
+    orelse = [] ∧ isDebugTest test = true := by
+  simp only [canRemoveDebug, Bool.and_eq_true, List.isEmpty_iff] at h
+  obtain ⟨h1, h2⟩ := h
+  refine ⟨h1, ?_⟩
+  split at h2
+  · rfl
+  · obtain ⟨c, rfl⟩ := isDebugName_eq _ h2; rfl
+  · obtain ⟨c, rfl⟩ := isDebugName_eq _ h2; rfl
+  · obtain ⟨c, rfl⟩ := isDebugName_eq _ h2; rfl
+  · simp at h2
+
+theorem canRemoveDebug_noop : NoOpPred true canRemoveDebug where
+  exec := by
+    intro ft fuel s st h
+    cases st <;> try (simp [canRemoveDebug] at h; done)
+    rename_i test body orelse
+    obtain ⟨ho, ht⟩ := debugTest_of_canRemove test body orelse h
+    subst ho
+    rw [exec1.eq_1]
+    simp [condE, ht, Val.truthy, execL_nil]
+  notDef := by
+    intro st h
+    cases st <;> first | rfl | (simp [canRemoveDebug] at h; done)
+  notGlobal := by
+    intro st h
+    cases st <;> first | rfl | (simp [canRemoveDebug] at h; done)
 
 end PMV.PyCore
